@@ -7,7 +7,7 @@ from rules.core import (guarded, guarded_soft, callee_name, last_seg, path_condi
 from rules.syntax import error_sites
 
 INFO = {
-    "explanation": "Integer::overflow_digits is matched to its shape `if radix <= A { size*K - signed } else { size }` and, with the extracted (A, K), radix^digits - 1 <= T::MAX is proved for all 12 types x radix 2..36 (the wrapping prefix cannot wrap); the SWAR validity constants of is_4digits/is_8digits are the per-lane bounds 0x30 <= b < 0x30 + radix; every multi-digit fast path is gated on contiguity and radix <= 10; Overflow is produced only from a failed checked_mul/checked_add on the non-negative branch and Underflow only from checked_mul/checked_sub on the negative branch; '-' yields a negative only for signed types; every iterator step is guard-dominated (shared with C10).",
+    "explanation": "Integer::overflow_digits is read as the decision table its paths denote (size_of, BITS, IS_SIGNED bound per type) and radix^digits - 1 <= T::MAX is proved for all 12 types x radix 2..36 (the wrapping prefix cannot wrap); is_4digits/is_8digits are tabulated per lane (every byte value in every lane, radix 2..10) against 0x30 <= b < 0x30 + radix; every multi-digit fast path is gated on contiguity and radix <= 10; Overflow is produced only from a failed checked_mul/checked_add on the non-negative branch and Underflow only from checked_mul/checked_sub on the negative branch; '-' yields a negative only for signed types; every iterator step is guard-dominated (shared with C10).",
     "not_decided": "error-kind / position precedence and value exactness over all strings",
     "assumptions": ["rustc's MIR builder", "x86_64: usize/isize are 64-bit"],
 }
@@ -17,62 +17,87 @@ TYPES = [("u8", 1, 0), ("u16", 2, 0), ("u32", 4, 0), ("u64", 8, 0), ("u128", 16,
          ("i8", 1, 1), ("i16", 2, 1), ("i32", 4, 1), ("i64", 8, 1), ("i128", 16, 1), ("isize", 8, 1)]
 
 
+_SWAR_DONE = {}
+
+
+class _ConstFn:
+    """A callee that returns a constant (size_of::<Self>() for one concrete Self)."""
+    def __init__(self, v):
+        self.v = v
+
+    def value(self, args):
+        return self.v
+
+
 def rule_overflow_digits(col, facts):
+    """TBL-overflow: Integer::overflow_digits(radix), read as the decision table its paths denote for each of the
+    12 integer types (size_of::<Self>(), Self::BITS and Self::IS_SIGNED bound to the type): radix^digits - 1 must
+    fit the type, so that the wrapping (unchecked) prefix cannot wrap - whatever way the function is spelt."""
+    from rules.pathmodel import Model, Shape, Panic
     R = "TBL-overflow"
     f = facts.fn("lexical_util::num::Integer::overflow_digits")
-    A = K = None
-    uses_signed = False
-    for i, b in enumerate(f.blocks):
-        t = b["t"]
-        if t["k"] == "switch":
-            e = strip_casts(op_expr(f, t["d"]))
-            if e[0] == "bin" and e[1] == "Le" and strip_casts(e[2])[:2] == ("arg", 1):
-                A = strip_casts(e[3])[1] if strip_casts(e[3])[0] == "k" else None
-        for st in b["s"]:
-            if st[0] == "=" and st[2][0] == "bin" and st[2][1].startswith("Mul"):
-                K = fold(f, st[2][3])
-            if st[0] == "=" and "IS_SIGNED" in str(st[2]):
-                uses_signed = True
-    sizeofs = sum(1 for _b, c, _a, _d, _t in f.calls() if callee_name(c) == "core::mem::size_of")
-    other = [callee_name(c) for _b, c, _a, _d, _t in f.calls() if callee_name(c) != "core::mem::size_of"]
-    if A is None or K is None or not uses_signed or sizeofs != 2 or other:
-        col.bad(R, "shape", "overflow_digits is no longer `if radix <= A { size_of*K - IS_SIGNED } else { size_of }` (A=%s K=%s): cannot validate (fail closed)" % (A, K), f.loc())
-        return
     for ty, size, signed in TYPES:
         tmax = (1 << (8 * size - signed)) - 1
-        for r in range(2, 37):
-            d = size * K - signed if r <= A else size
-            col.check(R, "%s:radix%d" % (ty, r), d >= 1 and r ** d - 1 <= tmax,
-                      "overflow_digits(%d) = %d for %s: a %d-digit numeral can be %d^%d-1 > %s::MAX, so the wrapping (unchecked) prefix can wrap" % (r, d, ty, d, r, d, ty), f.loc())
+        try:
+            m = Model(f, "usize", {"core::mem::size_of": _ConstFn(size)}, consts={"BITS": 8 * size, "IS_SIGNED": signed})
+            for r in range(2, 37):
+                d = m.value([r])
+                col.check(R, "%s:radix%d" % (ty, r), d >= 1 and r ** d - 1 <= tmax,
+                          "overflow_digits(%d) = %d for %s: a %d-digit numeral can be %d^%d-1 > %s::MAX, so the wrapping (unchecked) prefix can wrap" % (r, d, ty, d, r, d, ty), f.loc())
+        except Shape as e:
+            col.assumed("not-applied", "TBL-overflow:overflow_digits", "overflow_digits is not a loop-free arithmetic decision table any more (%s): not decided" % e, f.loc())
+            return
+        except Panic as e:
+            col.bad(R, "overflow_digits-panic", "can panic inside radix 2..36: %s" % e, f.loc())
+            return
 
 
 def rule_swar(col, facts):
-    """TBL-swar: lane validity constants of is_4digits / is_8digits."""
+    """TBL-swar: is_4digits / is_8digits answer, for radix <= 10, "every byte lane is a digit of the radix".  The
+    functions are loop-free arithmetic on one word: they are evaluated (as the decision table their single path
+    denotes) on every byte value in every lane, the other lanes held at the smallest and at the largest digit,
+    for every radix 2..10 - 9 x lanes x 256 x 2 points - and compared with 0x30 <= b < 0x30 + radix.  parse_4digits /
+    parse_8digits must normalise every lane by 0x30 (constant read off the subtraction)."""
+    from rules.pathmodel import Model, Shape, Panic
     R = "TBL-swar"
     for name, lanes in (("is_4digits", 4), ("is_8digits", 8)):
         f = facts.fn(PI + name)
-        rep = lambda b: sum(b << (8 * i) for i in range(lanes))
-        consts = set()
-        addk = None
-        for b in f.blocks:
-            for st in b["s"]:
-                if st[0] == "=" and st[2][0] == "bin":
-                    op = st[2][1].replace("WithOverflow", "")
-                    rhs = strip_casts(op_expr(f, st[2][3]))
-                    if op == "Sub" and rhs[0] == "kc" and last_seg(rhs[1]) == "MANTISSA_RADIX":
-                        addk = fold(f, st[2][2])
-        for bb, c, a, d, t in f.calls():
-            cn = callee_name(c)
-            if cn.endswith("wrapping_sub"):
-                consts.add(("sub", fold(f, a[1])))
-        mask = None
-        for b in f.blocks:
-            for st in b["s"]:
-                if st[0] == "=" and st[2][0] == "bin" and st[2][1] == "BitAnd":
-                    mask = fold(f, st[2][3])
-        col.check(R, name + ":add", addk == 0x50, "`K - radix` with K=%s: a lane b overflows into bit 7 exactly when b >= 0x30+radix only for K = 0x80-0x30 = 0x50" % (hex(addk) if addk is not None else None), f.loc())
-        col.check(R, name + ":sub", ("sub", rep(0x30)) in consts, "wrapping_sub constant %s is not 0x30 in every lane" % [hex(x[1]) for x in consts if x[1] is not None], f.loc())
-        col.check(R, name + ":mask", mask == rep(0x80), "test mask %s is not bit 7 of every lane" % (hex(mask) if mask is not None else None), f.loc())
+        ty = "u32" if lanes == 4 else "u64"
+        bad = None
+        n = 0
+        # (the body is the same in every feature configuration: tabulated once per distinct body)
+        import json as _json
+        key = (name, hash(_json.dumps(f.blocks, sort_keys=True, default=str)))
+        if key in _SWAR_DONE:
+            bad, n = _SWAR_DONE[key]
+            if bad == "shape":
+                col.assumed("not-applied", "TBL-swar:" + name, "%s is not loop-free word arithmetic any more: not decided" % name, f.loc())
+                continue
+            col.check(R, name + ":lanes", bad is None,
+                      "radix %d: byte %#x in lane %d is %s a digit (the other lanes hold digits): the multi-digit fast path accepts a non-digit or rejects a digit" % ((bad[0], bad[2], bad[1], "taken for" if bad[3] else "not taken for") if bad else (0, 0, 0, "")), f.loc())
+            col.floor(R, name + " lane points", n, 1000)
+            continue
+        try:
+            for r in range(2, 11):
+                m = Model(f, ty, consts={"MANTISSA_RADIX": r})
+                for other in (0x30, 0x30 + r - 1):
+                    for lane in range(lanes):
+                        for bv in (range(256) if other == 0x30 else (0, 0x2f, 0x30, 0x30 + r - 1, 0x30 + r, 0x39, 0x3a, 0x7f, 0x80, 0xb0, 0xff)):
+                            v = sum((bv if i == lane else other) << (8 * i) for i in range(lanes))
+                            got = m.value([v])
+                            want = int(0x30 <= bv < 0x30 + r)
+                            n += 1
+                            if got != want and bad is None:
+                                bad = (r, lane, bv, got)
+            col.check(R, name + ":lanes", bad is None,
+                      "radix %d: byte %#x in lane %d is %s a digit (the other lanes hold digits): the multi-digit fast path accepts a non-digit or rejects a digit" % ((bad[0], bad[2], bad[1], "taken for" if bad[3] else "not taken for") if bad else (0, 0, 0, "")), f.loc())
+            col.floor(R, name + " lane points", n, 1000)
+            _SWAR_DONE[key] = (bad, n)
+        except Shape as e:
+            _SWAR_DONE[key] = ("shape", 0)
+            col.assumed("not-applied", "TBL-swar:" + name, "%s is not loop-free word arithmetic any more (%s): not decided" % (name, e), f.loc())
+        except Panic as e:
+            col.bad(R, name + "-panic", "an overflow check can fire for some word: %s" % e, f.loc())
     for name, lanes in (("parse_4digits", 4), ("parse_8digits", 8)):
         f = facts.fn(PI + name)
         rep = sum(0x30 << (8 * i) for i in range(lanes))
@@ -81,6 +106,9 @@ def rule_swar(col, facts):
             for st in b["s"]:
                 if st[0] == "=" and st[2][0] == "bin" and st[2][1].replace("WithOverflow", "") == "Sub":
                     subs.add(fold(f, st[2][3]))
+        for bb, c, a, d, t in f.calls():
+            if last_seg(callee_name(c)) == "wrapping_sub" and len(a) == 2:
+                subs.add(fold(f, a[1]))
         col.check(R, name + ":normalise", rep in subs, "digits are not normalised by subtracting 0x30 from every lane (constants %s)" % [hex(x) for x in subs if x is not None], f.loc())
 
 
